@@ -67,8 +67,11 @@ func c11Letters() []c11Letter {
 // stuffed plaintext that must never be interpreted
 var c11Stuffed = pgproto.Cat(pgproto.Startup("user", "eve"), pgproto.Query("stuffed"))
 
-func c11Server(rec *script.Rec, cfg string) (*harness.One, error) {
+func c11Server(rec *script.Rec, cfg string, limit ...int) (*harness.One, error) {
 	var opts []wire.OptionFn
+	if len(limit) > 0 && limit[0] != 0 {
+		opts = append(opts, wire.MessageBufferSize(limit[0]))
+	}
 	switch cfg {
 	case "empty":
 		opts = append(opts, wire.TLSConfig(&tls.Config{}))
@@ -114,6 +117,7 @@ type c11Case struct {
 	Cfg    string // nil | empty | certs
 	Behave string
 	Hist   []c11Letter
+	Limit  int // configured message size limit (0 = harness default of 8 KiB)
 }
 
 func (c c11Case) String() string {
@@ -121,13 +125,16 @@ func (c c11Case) String() string {
 	for _, l := range c.Hist {
 		names = append(names, l.Name)
 	}
+	if c.Limit != 0 {
+		return fmt.Sprintf("tls=%s limit=%d client=%s session=%v", c.Cfg, c.Limit, c.Behave, names)
+	}
 	return fmt.Sprintf("tls=%s client=%s session=%v", c.Cfg, c.Behave, names)
 }
 
 // plainTranscript serves the history on a plaintext connection of an identically configured server.
 func c11Plain(c c11Case) ([]string, []string, string) {
 	rec := &script.Rec{}
-	one, err := c11Server(rec, c.Cfg)
+	one, err := c11Server(rec, c.Cfg, c.Limit)
 	if err != nil {
 		return nil, nil, err.Error()
 	}
@@ -150,7 +157,7 @@ func c11Run(c c11Case) explore.Result {
 	var res explore.Result
 	res.Key = c.String()
 	rec := &script.Rec{}
-	one, err := c11Server(rec, c.Cfg)
+	one, err := c11Server(rec, c.Cfg, c.Limit)
 	if err != nil {
 		res.Engine = err.Error()
 		return res
@@ -197,7 +204,7 @@ func c11Run(c c11Case) explore.Result {
 				// pipelined startup + query and must be served exactly as if no SSLRequest had preceded them
 				res.Outcome = "refused-pipelined"
 				ref := &script.Rec{}
-				r1, err := c11Server(ref, c.Cfg)
+				r1, err := c11Server(ref, c.Cfg, c.Limit)
 				if err != nil {
 					res.Engine = err.Error()
 					return res
@@ -376,7 +383,7 @@ func init() {
 		ID:               "C11",
 		Level:            "exploration",
 		Technique:        "exhaustive enumeration of (server TLS configuration x client behaviour around the SSLRequest x session history) with a real crypto/tls client over a tapped in-memory transport; raw bytes judged structurally (TLS record framing), decrypted stream differentially against the plaintext equivalent",
-		Rule:             "TLS configuration {none, empty config, empty non-nil certificate slice (with / without capacity), with certificate} x client behaviour {SSLRequest then handshake, SSLRequest with startup+Query stuffed into the same segment, SSLRequest with surplus body, plaintext instead of a handshake, second SSLRequest, CancelRequest after the negotiation} x all session histories of length <= 2 over {Query ok, Query error, Parse+Bind+Execute+Sync, COPY-in, oversized, Terminate}; non-trivial = cases that negotiate (refused or upgraded)",
+		Rule:             "TLS configuration {none, empty config, empty non-nil certificate slice (with / without capacity), with certificate} x client behaviour {SSLRequest then handshake, SSLRequest with startup+Query stuffed into the same segment, SSLRequest with surplus body, plaintext instead of a handshake, second SSLRequest, CancelRequest after the negotiation} x all session histories of length <= 2 over {Query ok, Query error, Parse+Bind+Execute+Sync, COPY-in, oversized, Terminate}; configured limits {1 KiB, 16 KiB, 64 KiB} x Query / Bind messages with bodies of L-1, L, L+1, 2L, 16383, 16384, 16385, 20000, 70000 bytes over TLS against the plaintext equivalent; non-trivial = cases that negotiate (refused or upgraded)",
 		Assumptions:      []string{"cryptographic strength is not judged: only record framing on the wire and the decrypted plaintext", "behaviour of a repeated SSLRequest is only required to leak nothing and to run no callback", "crypto/tls client and server goroutines run freely; the verdict depends on byte structure and transcripts only"},
 		Enumerate:        c11Enumerate,
 		Bounds:           func(tier string) map[string]any { return map[string]any{"session_depth": c11Depth(tier)} },
@@ -410,6 +417,39 @@ func c11Enumerate(tier string, emit explore.Emit) {
 			emit(explore.Case{Family: "tls", Size: 1, Desc: func() any { return c.String() }, Run: func() explore.Result { return c11Run(c) }})
 		}
 	}
+	limits := []int{1024, 16384, 65536}
+	if tier == "thorough" {
+		limits = []int{200, 1024, 4096, 16383, 16384, 16385, 32768, 65536, 1 << 20}
+	}
+	for _, c := range c11SizedCases(limits) {
+		c := c
+		emit(explore.Case{Family: "tls-limit", Size: 3, Desc: func() any { return c.String() }, Run: func() explore.Result { return c11Run(c) }})
+	}
+}
+
+// c11SizedCases: the configured message size limit applies to the upgraded connection exactly as to a plaintext
+// one: limits around the TLS record size (16 KiB) x messages just below / above the limit and the record size.
+func c11SizedCases(limits []int) []c11Case {
+	var out []c11Case
+	ok := c11Letters()[0]
+	for _, l := range limits {
+		seen := map[int]bool{}
+		for _, body := range []int{l - 1, l, l + 1, 2 * l, 16383, 16384, 16385, 20000, 70000} {
+			if body < 64 || seen[body] {
+				continue
+			}
+			seen[body] = true
+			// a Query message whose body is exactly body bytes: the program, padding blanks, NUL
+			pad := body - len(progRows) - 1
+			q := c11Letter{fmt.Sprintf("Query(%d-byte body)", body), pgproto.Query(progRows + strings.Repeat(" ", pad))}
+			b := c11Letter{fmt.Sprintf("Bind(%d-byte body)", body), pgproto.Cat(pgproto.Parse("", "1:r,c=SELECT 1"), pgproto.Msg('B', append(pgproto.BindBody("", "", nil, nil, nil), make([]byte, body-len(pgproto.BindBody("", "", nil, nil, nil)))...)), pgproto.Execute("", 0), pgproto.Sync())}
+			for _, cfg := range []string{"certs", "nil"} {
+				out = append(out, c11Case{Cfg: cfg, Behave: "ssl-handshake", Hist: []c11Letter{q, ok}, Limit: l})
+				out = append(out, c11Case{Cfg: cfg, Behave: "ssl-handshake", Hist: []c11Letter{ok, b, ok}, Limit: l})
+			}
+		}
+	}
+	return out
 }
 
 var _ = context.Background
